@@ -406,13 +406,15 @@ func resolveCase(features supportedFeatures, unresolvedCase *conformancev1.Confi
 		tlsCases = []bool{unresolvedCase.GetUseTls()}
 	}
 	if unresolvedCase.UseTlsClientCerts != nil {
-		if unresolvedCase.UseTls != nil && !unresolvedCase.GetUseTls() {
-			// use_tls explicitly set to false for this case?
-			return nil, errors.New("config case indicates use of TLS client certs but also indicates NOT using TLS")
-		}
-		if !contains(tlsCases, true) && !features.SupportsTLS {
-			// TLS not supported?
-			return nil, errors.New("config case indicates use of TLS client certs but TLS is not supported")
+		if unresolvedCase.GetUseTlsClientCerts() { // (explicitly NOT using client certs is fine without TLS)
+			if unresolvedCase.UseTls != nil && !unresolvedCase.GetUseTls() {
+				// use_tls explicitly set to false for this case?
+				return nil, errors.New("config case indicates use of TLS client certs but also indicates NOT using TLS")
+			}
+			if !contains(tlsCases, true) && !features.SupportsTLS {
+				// TLS not supported?
+				return nil, errors.New("config case indicates use of TLS client certs but TLS is not supported")
+			}
 		}
 		tlsClientCertCases = []bool{unresolvedCase.GetUseTlsClientCerts()}
 	}
